@@ -11,7 +11,7 @@ A missing function or anchor is analysis-broken (exit 2), never a pass.
 """
 import engine
 import facts as F
-from facts import AnalysisBroken, strip_targs, short
+from facts import walk, AnalysisBroken, strip_targs, short
 
 RULE = "R-MPT"
 
@@ -43,6 +43,72 @@ def find_calls(fx, fn, spec):
     return out
 
 
+def _guards(fn, node):
+    """[(IfStmt, polarity)] enclosing node, outermost first"""
+    out = []
+    child = node
+    for anc in fn.ancestors(node):
+        if anc.get("k") == "IfStmt":
+            th, el = anc.get("then"), anc.get("else")
+            if isinstance(th, dict) and any(x is child or x.get("id") == child.get("id") for x in walk(th)):
+                out.append((anc, True))
+            elif isinstance(el, dict) and any(x is child or x.get("id") == child.get("id") for x in walk(el)):
+                out.append((anc, False))
+            else:
+                out.append((anc, None))        # inside the condition itself
+        child = anc
+    return list(reversed(out))
+
+
+def _disjuncts(n):
+    if n is not None and n.get("k") == "BinaryOperator" and n.get("op") == "||":
+        return _disjuncts(n["c"][0]) + _disjuncts(n["c"][1])
+    return [n]
+
+
+def _dominates_under_guards(fn, r, a):
+    """Correlated branches: `if (A || B) step();  ...  if (A) { anchor(); }` - the step is not a CFG dominator
+    of the anchor, but every path that reaches the anchor took the step, provided the variables of A are not
+    changed in between.  Accepted when each condition guarding the step only (then-branch, no else involved) has
+    a disjunct that is, textually and with the same polarity, a condition guarding the anchor, over locals /
+    parameters that are never assigned after the step's if statement, and that if statement dominates the anchor."""
+    gr, ga = _guards(fn, r), _guards(fn, a)
+    common = 0
+    while common < len(gr) and common < len(ga) and gr[common][0] is ga[common][0] and gr[common][1] == ga[common][1]:
+        common += 1
+    extra = gr[common:]
+    if not extra:
+        return False
+    anchor_conds = {(F.expr_text(g.get("cond")), pol) for g, pol in ga}
+    cfg = fn.cfg
+    for g, pol in extra:
+        if pol is not True:
+            return False
+        ds = [d for d in _disjuncts(g.get("cond")) if (F.expr_text(d), True) in anchor_conds]
+        if not ds:
+            return False
+        if not cfg.dominates(g.get("cond"), a):
+            return False
+        # variables of the correlated condition must be stable between the two tests
+        for d in ds[:1]:
+            for x in walk(d):
+                if x.get("k") == "DeclRefExpr" and x["ref"].get("dk") in ("local", "parm"):
+                    decl = x["ref"].get("decl")
+                    for w in fn.walk():
+                        if w.get("k") in ("BinaryOperator", "CompoundAssignOperator") and w.get("op", "").endswith("=") \
+                                and w.get("op") not in ("==", "!=", "<=", ">=") and w["c"][0].get("k") == "DeclRefExpr" \
+                                and w["c"][0]["ref"].get("decl") == decl and cfg.dominates(g.get("cond"), w):
+                            return False
+                elif x.get("k") in ("CallExpr", "CXXMemberCallExpr", "MemberExpr"):
+                    return False
+    # and the step itself must not sit under a loop/switch the anchor is outside of
+    for anc in fn.ancestors(r):
+        if anc.get("k") in ("ForStmt", "WhileStmt", "DoStmt", "SwitchStmt", "CXXForRangeStmt", "CXXTryStmt") and \
+                not any(y is anc for y in fn.ancestors(a)):
+            return False
+    return True
+
+
 def check_entry(ctx, e):
     fx = ctx.facts
     fn = fx.fn(e["fn"], e.get("nparams"), e.get("file"))
@@ -59,7 +125,22 @@ def check_entry(ctx, e):
                                    "" if len(anchors) == 1 else "#%d" % (ai + 1))
             n += 1
             if e["relation"] == "before":
-                ok = any(cfg.dominates(r, a) for r in reqs)
+                good = [r for r in reqs if cfg.dominates(r, a) or _dominates_under_guards(fn, r, a)]
+                # a later call that undoes the step (table: "kill") on a path to the anchor cancels it
+                for kill in e.get("kill", []):
+                    for kc in find_calls(fx, fn, kill):
+                        kb, ab = cfg.block_of(kc), cfg.block_of(a)
+                        good = [r for r in good if not (cfg.dominates(r, kc) and kb is not None and ab is not None and
+                                                        ((kb[0] != ab[0] and ab[0] in cfg.reachable_blocks_from(kb[0])) or (kb[0] == ab[0] and kb[1] < ab[1])))]
+                ok = bool(good)
+                if not ok and e.get("or_in_callee"):
+                    # the step may have been moved into the anchor's callee: there it must dominate every other call
+                    callee = fx.functions.get(a.get("calleeKey") or "")
+                    if callee is not None and callee.body is not None:
+                        inner = find_calls(fx, callee, req)
+                        others = [c for c in callee.calls() if c not in inner]
+                        ok = bool(inner) and all(any(callee.cfg.dominates(r, c) for r in inner) for c in others
+                                                 if callee.cfg.block_of(c) is not None)
                 msg = "%s is reached in %s on a path that has not run %s" % (
                     short(_q(e["anchor"]["callee"])), fn.short, short(_q(req["callee"])))
             else:
@@ -102,3 +183,8 @@ def rule_mpt_c14(ctx):
 def rule_mpt_c10(ctx):
     n = run(ctx, "C10")
     ctx.floor(RULE, 4, n, "must-pass-through obligations (C10)")
+
+
+def rule_mpt_c12(ctx):
+    n = run(ctx, "C12")
+    ctx.floor(RULE, 2, n, "must-pass-through obligations (C12)")
